@@ -30,6 +30,83 @@ def shift_programs(tier):
     return progs
 
 
+def chain_programs(tier):
+    """`(x OP1 c1) OP2 c2` over the arithmetic operators with x read at run time: small, power-of-two and boundary literals
+    (products and sums of the two literals that leave the 32-bit range included — the merged literal must not be formed)."""
+    xs = [-2000000000, -100001, -7, 0, 1, 9, 65537, 2000000000] if tier == "quick" else \
+         [INT_MIN, -2000000000, -100001, -65536, -7, -1, 0, 1, 9, 65537, 100000, 2000000000, INT_MAX]
+    cs = [-100000, -65536, -3, -1, 1, 2, 7, 65536, 100000, 2147483647] if tier == "quick" else \
+         [INT_MIN, -2147483647, -100000, -65536, -10, -3, -1, 1, 2, 3, 7, 10, 65536, 100000, 2147483640, 2147483647]
+    cases = [(o1, o2, x, c1, c2) for o1 in c04.ARITH for o2 in c04.ARITH for x in xs for c1 in cs for c2 in cs]
+    if tier == "quick":
+        cases = cases[SEED % 3::3]
+    progs = []
+    for i in range(0, len(cases), 250):
+        chunk = cases[i:i + 250]
+        lines = [f'    Process.println(Str.fromInt((Main.v("{x}") {c04.OPS[o1]} ({c1})) {c04.OPS[o2]} ({c2})));' for (o1, o2, x, c1, c2) in chunk]
+        # one function per line keeps a trap (division by zero, overflow is silent) from hiding the lines after it
+        fns = [f"  function f{k}(): unit = {{\n{l}\n  }}" for k, l in enumerate(lines)]
+        text = "class Main {\n  function v(s: Str): int = s.toInt()\n" + "\n".join(fns) + "\n  function main(): unit = {\n" + \
+               "\n".join(f"    Main.f{k}();" for k in range(len(lines))) + "\n  }\n}\n"
+        progs.append({"origin": "arith:chain", "entry": "Main", "sources": {"Main": text}, "kind": "chain", "cases": [list(c) for c in chunk]})
+    return progs
+
+
+def chain_rows(recs):
+    """only the cases whose two steps are defined print a line every build must agree on; a program is cut at the first
+    trapping case, so cases are kept only up to the first undefined one of each program"""
+    rows = []
+    for r in recs:
+        if r.get("front") != "accepted":
+            tool_failure(f"chain program rejected/crashed: {r.get('errors') or r.get('crash')}")
+        b0, b31 = r["builds"].get("raw", {}), r["builds"].get("opt:31", {})
+        for i, (o1, o2, x, c1, c2) in enumerate(r["cases"]):
+            if chain_traps(o1, o2, x, c1, c2):
+                break            # the run ends here on every build: the lines after it do not exist
+            if not chain_defined(o1, o2, x, c1, c2):
+                continue         # an overflow wraps silently: the line is there but the language does not fix it
+            rows.append({"kind": "chain", "op": o1, "op2": o2, "x": x, "a": c1, "b": c2,
+                         "wasm0": c04.line_or_end(b0.get("wasm"), i), "ts0": c04.line_or_end(b0.get("ts"), i),
+                         "wasm31": c04.line_or_end(b31.get("wasm"), i), "ts31": c04.line_or_end(b31.get("ts"), i),
+                         "status0": b0.get("status", "?"), "status31": b31.get("status", "?")})
+    return rows
+
+
+def _step(o, a, b):
+    """(defined, value) of one arithmetic step in the source language (Arith.tla: SrcDefined / SrcVal)"""
+    if o == "PLUS":
+        v = a + b
+    elif o == "MINUS":
+        v = a - b
+    elif o == "MUL":
+        v = a * b
+    elif o in ("DIV", "MOD"):
+        if b == 0 or (o == "DIV" and a == INT_MIN and b == -1):
+            return False, 0
+        q = abs(a) // abs(b) * (1 if (a < 0) == (b < 0) else -1)
+        v = q if o == "DIV" else a - q * b
+    return INT_MIN <= v <= INT_MAX, v
+
+
+def _wrap(v):
+    return (v + 2 ** 31) % 2 ** 32 - 2 ** 31
+
+
+def chain_traps(o1, o2, x, c1, c2):
+    """whether the machine (32-bit wrap-around, trapping division) stops at this case"""
+    def trap(o, a, b):
+        return o in ("DIV", "MOD") and (b == 0 or (o == "DIV" and a == INT_MIN and b == -1))
+    if trap(o1, x, c1):
+        return True
+    mid = _wrap(_step(o1, x, c1)[1])
+    return trap(o2, mid, c2)
+
+
+def chain_defined(o1, o2, x, c1, c2):
+    ok, mid = _step(o1, x, c1)
+    return ok and _step(o2, mid, c2)[0]
+
+
 def shift_rows(recs):
     rows = []
     for r in recs:
@@ -134,6 +211,7 @@ def run(tier):
     progs = [p for p in c04.arith_programs(cases) if p["kind"] == "fold"]
     rows = c04.arith_trace(pc.run_programs(d, "fold", progs, [0, 31]))   # opt:0 still folds nothing away: CCP needs inlining to see the literals
     rows += shift_rows(pc.run_programs(d, "shift", shift_programs(tier), ["raw", 31]))
+    rows += chain_rows(pc.run_programs(d, "chain", chain_programs(tier), ["raw", 31]))
     tr = os.path.join(d, "fold-trace.ndjson")
     write_ndjson(tr, rows)
     v = tlc("ArithTrace", "ArithTraceFold.cfg", env={"TRACE": tr}, deque=True, tag="c02at", timeout=1500)
